@@ -903,6 +903,11 @@ func structuralDescent(p *Prog, caller *ssa.Function, site ssa.CallInstruction, 
 			}
 		}
 	}
+	if callee == caller {
+		if ok, why := typeDirectedDescent(caller, site); ok {
+			return true, why
+		}
+	}
 	if measure == nil {
 		return false, "no measure argument identified for " + p.FuncKey(callee)
 	}
@@ -1268,4 +1273,52 @@ func checkTypedNil(p *Prog, l *Ledger, fns []*ssa.Function, reach map[*ssa.Funct
 	if n < 30 {
 		l.Violate("C07/vacuity", "pointer-to-interface conversions", "", fmt.Sprintf("only %d pointer→interface conversions seen (expected >= 30: every AST node and signal)", n))
 	}
+}
+
+// typeDirectedDescent: a function that dispatches on the dynamic type of a parameter and calls itself, in the case for
+// type S, with a value of a concrete type T for which no case that recurses exists (toInt64: case string → parse →
+// toInt64(float64)).  The inner activation cannot reach a recursive call, so the depth is at most two.  Decided as:
+// the argument at this site is a conversion from concrete T, and every self-call site of the function is dominated by
+// a successful test of the same parameter against a concrete type different from T.
+func typeDirectedDescent(fn *ssa.Function, site ssa.CallInstruction) (bool, string) {
+	args := site.Common().Args
+	for k, prm := range fn.Params {
+		if k >= len(args) || !isIfaceT(prm.Type()) {
+			continue
+		}
+		mk, ok := args[k].(*ssa.MakeInterface)
+		if !ok || isIfaceT(mk.X.Type()) {
+			continue
+		}
+		T := mk.X.Type()
+		all, n := true, 0
+		instrsOf(fn, func(in ssa.Instruction) {
+			ci, ok := in.(ssa.CallInstruction)
+			if !ok || ci.Common().StaticCallee() != fn {
+				return
+			}
+			n++
+			guarded := false
+			for _, g := range GuardsAt(in.Block()) {
+				ex, ok := g.Cond.(*ssa.Extract)
+				if !ok || ex.Index != 1 || !g.Truth {
+					continue
+				}
+				ta, ok := ex.Tuple.(*ssa.TypeAssert)
+				if !ok || ta.X != ssa.Value(prm) || isIfaceT(ta.AssertedType) {
+					continue
+				}
+				if !types.Identical(ta.AssertedType, T) {
+					guarded = true
+				}
+			}
+			if !guarded {
+				all = false
+			}
+		})
+		if all && n > 0 {
+			return true, fmt.Sprintf("type-directed: the callee is entered with a %s in parameter %s, and each of the %d self-calls sits in a case for another concrete type — the inner activation cannot recurse (depth <= 2)", typeStr(T), prm.Name(), n)
+		}
+	}
+	return false, ""
 }
